@@ -1,5 +1,6 @@
 import HH.Proofs.Obs
 import HH.Props.C01
+import HH.Props.EndToEnd
 /-!
 # C07 — Default-constructed hashers are the zero-key HighwayHash
 
@@ -24,6 +25,22 @@ theorem default_hash (b : Backend) (h : Hasher) (hh : Hasher.default b = some h)
 
 theorem default_hash64_spec (d : List (BitVec 8)) : P.finalize64 (P.append P.default d) = Spec.hash64 V4.zero d :=
   C01.hash64_eq_spec V4.zero d
+
+/-- headline, composed with C01/C05: a default-constructed hasher of ANY back end fed ANY chunking computes the
+HighwayHash specification under the all-zero key, at all three widths — and its checkpoints are those of `new(0)` -/
+theorem default_is_spec (b : Backend) (h : Hasher) (hh : Hasher.default b = some h)
+    (chunks : List (List (BitVec 8))) (w : Width) :
+    (chunks.foldl Hasher.append h).finalize w = EndToEnd.specDigest w V4.zero chunks.flatten ∧
+    (chunks.foldl Hasher.append h).checkpoint = P.encodeAbs (absAppend (Spec.reset V4.zero, []) chunks.flatten) := by
+  have hb := Hasher.default_abs b h hh
+  have a := Hasher.foldl_append_abs chunks h hb.2
+  constructor
+  · rw [Hasher.finalize_abs _ w a.2, a.1, hb.1, EndToEnd.digestAbs_spec]
+  · rw [Hasher.checkpoint_abs _ a.2, a.1, hb.1]
+
+/-- non-vacuity: every back end has a default in the model -/
+example : ∀ b : Backend, ∃ h, Hasher.default b = some h := by
+  intro b; cases b <;> exact ⟨_, rfl⟩
 
 /-- the derived `Default` of the pinned tree: all-zero lanes, which skips the key schedule -/
 def legacyDefault : P.State := ⟨⟨V4.zero, V4.zero, V4.zero, V4.zero⟩, Pkt.default⟩
